@@ -442,6 +442,38 @@ static long pgen_L6 (PgenCb cb, void *user, int classes)
       count++;
     }
   }
+  /* memory operands through the upper general registers: the tested load reads the last of 8 sources and its result
+   * is stored to the last of 4 destinations (pointers in r8..r15 or spilled: REX.B, SIB for r12, disp8 for r13) */
+  if (classes & PG_INT) {
+    for (oi = 0; oi < v_nops; oi++) {
+      const OrcStaticOpcode *o = &v_ops[oi];
+      int sp, nsp;
+      if (!(o->flags & ORC_STATIC_OPCODE_LOAD) || op_is_loadp (o)) continue;
+      nsp = op_is_loadoff (o) ? 3 : op_is_ldres (o) ? 2 : 1;
+      for (sp = 0; sp < nsp; sp++) {
+        VProg p;
+        int d[4], sr[8], i, t, c1 = -1, c2 = -1, nsrc = op_nsrc (o), sz = o->dest_size[0];
+        static const char *copyn[] = { "", "copyb", "copyw", "", "copyl", "", "", "", "copyq" };
+        static const int offs[] = { 1, -1, 3 };
+        static const int st[] = { 0, 0x8000 }, inc[] = { 0x10000, 0x18000 };
+        memset (&p, 0, sizeof (p));
+        for (i = 0; i < 3; i++) d[i] = vprog_addvar (&p, VK_D, 4);
+        d[3] = vprog_addvar (&p, VK_D, sz);
+        for (i = 0; i < 7; i++) sr[i] = vprog_addvar (&p, VK_S, 4);
+        sr[7] = vprog_addvar (&p, VK_S, o->src_size[0]);
+        t = vprog_addvar (&p, VK_T, sz);
+        if (nsrc > 1) { c1 = vprog_addvar (&p, VK_C, o->src_size[1]); p.v[c1].cval = op_is_loadoff (o) ? offs[sp] : st[sp]; }
+        if (nsrc > 2) { c2 = vprog_addvar (&p, VK_C, o->src_size[2]); p.v[c2].cval = inc[sp]; }
+        for (i = 0; i < 3; i++) vprog_addinsn (&p, "addl", 0, 3, d[i], sr[2 * i], sr[2 * i + 1], -1);
+        vprog_addinsn (&p, o->name, 0, 1 + nsrc, t, sr[7], c1, c2);
+        vprog_addinsn (&p, copyn[sz], 0, 2, d[3], t, -1, -1);
+        vprog_addinsn (&p, "addl", 0, 3, d[0], d[0], sr[6], -1);
+        pg_name (&p, "L6m", count);
+        cb (&p, user);
+        count++;
+      }
+    }
+  }
   return count;
 }
 
